@@ -40,17 +40,18 @@ type Spec struct {
 	Hostname      string   `json:"hostname"`
 	HostReply     string   `json:"host_reply,omitempty"` // reply to 'hostname -s' / 'show hostname' if it is not the name (error text, empty line)
 	Password      string   `json:"password"`
-	NeedEnable    bool     `json:"need_enable"` // login ends in user mode, enable required
-	EnablePass    bool     `json:"enable_pass"` // enable asks for password
-	PreBanner     string   `json:"pre_banner"`  // shown before password prompt
-	PostBanner    string   `json:"post_banner"` // shown after login
-	Issue         string   `json:"issue"`       // content of /etc/issue (linux)
-	Config        string   `json:"config"`      // running config (asa, ios)
-	Routes        string   `json:"routes"`      // output of 'ip route show' (linux)
-	IPTables      string   `json:"iptables"`    // output of 'iptables-save' (linux)
-	Events        string   `json:"events"`      // event log file (O_APPEND)
-	Session       string   `json:"session"`     // session label
-	ScpDir        string   `json:"scp_dir"`     // where hook 1 drops files (linux)
+	NeedEnable    bool     `json:"need_enable"`            // login ends in user mode, enable required
+	EnablePass    bool     `json:"enable_pass"`            // enable asks for password
+	EnableUnset   bool     `json:"enable_unset,omitempty"` // ASA 9.12+: no enable password configured, 'enable' asks to define one (typed twice); doing so changes the configuration
+	PreBanner     string   `json:"pre_banner"`             // shown before password prompt
+	PostBanner    string   `json:"post_banner"`            // shown after login
+	Issue         string   `json:"issue"`                  // content of /etc/issue (linux)
+	Config        string   `json:"config"`                 // running config (asa, ios)
+	Routes        string   `json:"routes"`                 // output of 'ip route show' (linux)
+	IPTables      string   `json:"iptables"`               // output of 'iptables-save' (linux)
+	Events        string   `json:"events"`                 // event log file (O_APPEND)
+	Session       string   `json:"session"`                // session label
+	ScpDir        string   `json:"scp_dir"`                // where hook 1 drops files (linux)
 	Faults        []Fault  `json:"faults"`
 	Banners       []Banner `json:"banners"`
 	Park          *Park    `json:"park,omitempty"`
